@@ -47,7 +47,7 @@ def _matches_directory_pattern(path: str, pattern: str) -> bool:
     """
     dir_pattern = pattern.rstrip("/")
     path_parts = Path(path).parts
-    if dir_pattern in path_parts:
+    if dir_pattern in path_parts[:-1]:  # a directory of the path, not the file's own name
         return True
     # "**/name/" means a directory of that name at any depth, the top level included
     if dir_pattern.startswith("**/") and dir_pattern[3:] in path_parts[:-1]:
